@@ -30,7 +30,7 @@ def nleaves(size):
 
 
 def deseg_cfg(ainfo):
-    c = {k: {} for k in ["nseg", "last", "size_after", "leaves_after", "cap", "complete"]}
+    c = {k: {} for k in ["nseg", "last", "size_after", "leaves_after", "cap", "complete", "cover"]}
     for t in TREES:
         a = ainfo[t]
         cap = 1 << a["height"]
@@ -40,6 +40,10 @@ def deseg_cfg(ainfo):
         c["last"][t] = a["last"]
         c["cap"][t] = cap
         c["complete"][t] = a["complete"]
+        # segments covered once segment i is applied: a fully pruned segment is applied as the pruned subtree root
+        # above it, which stands for every segment below that root
+        tops = a.get("top", a["last"])
+        c["cover"][t] = [max(i + 1, sum(1 for l in a["last"] if l <= tops[i])) for i in range(n)]
         c["size_after"][t] = [g] + [i2p(k * cap) for k in range(1, n)] + [a["size"]]
         c["leaves_after"][t] = [g] + [k * cap for k in range(1, n)] + [nleaves(a["size"])]
     return c
@@ -60,6 +64,11 @@ def synthetic_cfg(nl, h):
         if t in ("output", "rangeproof") and n > 1:
             comp[1] = False
         info[t] = {"height": h, "nseg": n, "last": last, "size": size, "complete": comp}
+        if t in ("output", "rangeproof") and n >= 3 and h >= 1:
+            # the first two segments are fully pruned below one pruned root: applying either yields both
+            top = i2p(2 * cap - 1) + h + 1
+            info[t]["top"] = [top, top] + last[2:]
+            info[t]["complete"] = [False, False] + [True] * (n - 2)
     return deseg_cfg(info)
 
 
